@@ -89,11 +89,14 @@ def _spec_dir(ctx, name):
     return d
 
 
-def run_tlc(ctx, module, cfg, workers=None, timeout=600, env=None, extra=(), consts=None, tag=None):
+def run_tlc(ctx, module, cfg, workers=None, timeout=600, env=None, extra=(), consts=None, tag=None, cfgtext=None):
     """Run TLC; returns dict(out, code, states, distinct, tagged{TAG:[...]})."""
     tag = tag or cfg.replace(".cfg", "")
-    d = _spec_dir(ctx, "tlc-" + tag + "-%d" % len(ctx.mc_runs))
+    ctx.ntlc = getattr(ctx, "ntlc", 0) + 1
+    d = _spec_dir(ctx, "tlc-" + tag + "-%d" % ctx.ntlc)
     cfgpath = os.path.join(d, cfg)
+    if cfgtext is not None:
+        open(cfgpath, "w").write(cfgtext)
     if consts:
         txt = open(cfgpath).read()
         for k, v in consts.items():
@@ -104,6 +107,8 @@ def run_tlc(ctx, module, cfg, workers=None, timeout=600, env=None, extra=(), con
     e = dict(os.environ)
     if env:
         e.update(env)
+    # deep operator recursion (folds over pending steps) needs more than the default thread stack
+    e["JAVA_TOOL_OPTIONS"] = (e.get("JAVA_TOOL_OPTIONS", "") + " -Xss256m").strip()
     cmd = ["timeout", str(timeout), "tlc", "-workers", str(workers or min(NCPU, 8)), "-metadir", os.path.join(d, "md"),
            "-config", cfg] + list(extra) + [module + ".tla"]
     t = time.time()
@@ -158,26 +163,88 @@ def tlc_simulate(ctx, module, cfg, num, depth, seed, timeout=300, **kw):
     return r
 
 
-def tlc_trace(ctx, module, cfg, trace_path, nevents, timeout=900, deque=False, env=None):
-    """Validate recorded traces. Returns list of verdict records."""
-    e = {"VERIF_TRACE": trace_path}
-    if env:
-        e.update(env)
-    if deque:
-        e["JAVA_TOOL_OPTIONS"] = "-Dtlc2.tool.queue.IStateQueue=StateDeque"
-    r = run_tlc(ctx, module, cfg, workers=1, timeout=timeout, env=e, tag="trace-" + cfg.replace(".cfg", ""))
-    if r["code"] == 124:
-        raise Infra("TLC timeout validating trace %s" % trace_path)
-    if r["code"] != 0:
-        raise Infra("TLC trace validation %s/%s failed (exit %d):\n%s" % (module, cfg, r["code"], r["tail"]))
-    cons = r["tagged"].get("CONSUMED", [])
-    if not cons or max(cons) != nevents:
-        raise Infra("trace not fully consumed by %s: consumed=%s events=%d\n%s" % (module, cons, nevents, r["tail"]))
-    vs = []
-    for v in r["tagged"].get("VERDICTS", []):
-        if isinstance(v, list):
-            vs.extend(v)
-    ctx.log("TLC trace %s: %d events consumed, %d verdicts, %.1fs" % (module, nevents, len(vs), r["wall"]))
+def _split_trace(ctx, trace_path, chunk_events):
+    """Split an NDJSON trace into chunks at scenario boundaries (reset events; traces without
+    reset events consist of independent events and are split anywhere). Each chunk ends with
+    its own end event. Returns [(path, nevents)]."""
+    chunks, cur, n = [], None, 0
+    has_reset = False
+    with open(trace_path) as f:
+        for ln in f:
+            if ln.startswith('{"ev":"reset"') or '"ev":"reset"' in ln[:80]:
+                has_reset = True
+                break
+    k = 0
+
+    def start():
+        nonlocal cur, n, k
+        k += 1
+        path = "%s.chunk%d" % (trace_path, k)
+        cur = open(path, "w")
+        n = 0
+        chunks.append([path, 0])
+
+    def close():
+        nonlocal cur
+        if cur:
+            cur.write('{"ev":"end"}\n')
+            chunks[-1][1] = n + 1
+            cur.close()
+            cur = None
+    with open(trace_path) as f:
+        for ln in f:
+            if not ln.strip():
+                continue
+            is_end = ln.startswith('{"ev":"end"}')
+            if is_end:
+                continue
+            is_reset = '"ev":"reset"' in ln[:200] if has_reset else True
+            if cur is None or (n >= chunk_events and is_reset):
+                close()
+                start()
+            cur.write(ln)
+            n += 1
+    if cur is None:
+        start()
+    close()
+    return [tuple(c) for c in chunks]
+
+
+def tlc_trace(ctx, module, cfg, trace_path, nevents, timeout=900, deque=False, env=None, chunk_events=30000, parallel=8):
+    """Validate recorded traces (chunks in parallel, each a linear pass with -workers 1). Returns verdict records."""
+    from concurrent.futures import ThreadPoolExecutor
+    chunks = _split_trace(ctx, trace_path, chunk_events)
+    if sum(n for _, n in chunks) - len(chunks) != nevents - 1:
+        raise Infra("trace split lost events: %s vs %d" % (chunks, nevents))
+    t0 = time.time()
+
+    def one(arg):
+        i, (path, n) = arg
+        e = {"VERIF_TRACE": path}
+        if env:
+            e.update(env)
+        if deque:
+            e["JAVA_TOOL_OPTIONS"] = "-Dtlc2.tool.queue.IStateQueue=StateDeque"
+        r = run_tlc(ctx, module, cfg, workers=1, timeout=timeout, env=e, tag="trace-%s-%d" % (cfg.replace(".cfg", ""), i))
+        return path, n, r
+    with ThreadPoolExecutor(max_workers=parallel) as ex:
+        results = list(ex.map(one, enumerate(chunks)))
+    vs, stats = [], []
+    for path, n, r in results:
+        if r["code"] == 124:
+            raise Infra("TLC timeout validating trace chunk %s" % path)
+        if r["code"] != 0:
+            raise Infra("TLC trace validation %s/%s failed (exit %d):\n%s" % (module, cfg, r["code"], r["tail"]))
+        cons = r["tagged"].get("CONSUMED", [])
+        if not cons or max(cons) != n:
+            raise Infra("trace not fully consumed by %s: consumed=%s events=%d\n%s" % (module, cons, n, r["tail"]))
+        for v in r["tagged"].get("VERDICTS", []):
+            if isinstance(v, list):
+                vs.extend(v)
+        stats += r["tagged"].get("STATS", [])
+    if stats:
+        ctx.notes.setdefault("monitor_stats", []).extend(stats[:4])
+    ctx.log("TLC trace %s: %d events consumed in %d chunk(s), %d verdicts, %.1fs" % (module, nevents, len(chunks), len(vs), time.time() - t0))
     return vs
 
 
@@ -281,6 +348,13 @@ def finish(ctx, prop_filter=None):
             os.remove(os.path.join(EVID, "replay", f))
     vs = [v for v in ctx.verdicts if v.get("prop") == ctx.pid] if prop_filter is None else [v for v in ctx.verdicts if prop_filter(v)]
     other = len(ctx.verdicts) - len(vs)
+    osigs = {}
+    for v in ctx.verdicts:
+        if v not in vs:
+            k = "%s:%s" % (v.get("prop"), verdict_sig(v))
+            osigs[k] = osigs.get(k, 0) + 1
+    if osigs:
+        ctx.log("verdicts for other properties in the shared traces (reported by their own checks): " + ", ".join("%s x%d" % kv for kv in sorted(osigs.items())))
     by_sig = {}
     for v in vs:
         by_sig.setdefault(verdict_sig(v), []).append(v)
